@@ -123,10 +123,13 @@ namespace cs
                     Flavour == 2, typename K::template C<T, AlStateless>,
                     typename std::conditional<
                         Flavour == 3, typename K::template C<T, AlP3>,
-                        typename std::conditional<Flavour == 4, typename K::template C<T, AlP4>,
-                                                  typename K::template C<T, AlPmr>>::type>::type>::type>::type>::type;
+                        typename std::conditional<
+                            Flavour == 4, typename K::template C<T, AlP4>,
+                            typename std::conditional<Flavour == 5, typename K::template C<T, AlPmr>,
+                                                      typename K::template C<T, AlFb>>::type>::type>::type>::type>::
+                type>::type;
         // what the specification (propagation_traits, default: everything propagates) says about this flavour
-        constexpr bool P_MOVE = Flavour != 3, P_COPY = Flavour < 3 || Flavour == 5;
+        constexpr bool P_MOVE = Flavour != 3, P_COPY = Flavour < 3 || Flavour >= 5;
         using RT    = typename K::template C<T, AlRef>;
         using Alloc = typename CT::allocator_type;
         (void)sizeof(Elem);
@@ -149,8 +152,20 @@ namespace cs
                 env.leaf[i].max_node = std::size_t(plan.num("pmr_max_node", 64));
                 pmr[i].reset(new fm::memory_resource_adapter<LeafA>(LeafA(&env.leaf[i])));
             }
+        // flavour 6: allocator object k = fallback_allocator(default: leaf k+2 with a small budget, fallback: leaf k)
+        static std::unique_ptr<FbCA> fb[2];
+        if (Flavour == 6)
+            for (int i = 0; i < 2; ++i)
+            {
+                env.leaf[i + 2].budget = std::size_t(plan.num("fb_budget", 512));
+                fb[i].reset(new FbCA(LeafC(&env.leaf[i + 2]), LeafA(&env.leaf[i])));
+            }
+        unsigned any_made = 0;
         auto make_alloc = [&](int leaf) -> Alloc
         {
+            if constexpr (Flavour == 6)
+                return Alloc(*fb[leaf]);
+            else
             if constexpr (Flavour == 5)
                 return Alloc(fm::memory_resource_allocator(pmr[leaf].get()));
             else if constexpr (Flavour == 2)
@@ -159,6 +174,20 @@ namespace cs
                 return Alloc(lp3[leaf]);
             else if constexpr (Flavour == 4)
                 return Alloc(lp4[leaf]);
+            else if constexpr (Flavour == 1)
+            {
+                // half of the time by way of another type-erased reference that is re-seated afterwards: the new
+                // allocator must refer to the allocator object itself, not to the reference it was made from
+                if ((++any_made) % 2)
+                {
+                    fm::any_allocator_reference tmp(env.la[leaf]);
+                    Alloc                       a(tmp.get_allocator());
+                    tmp = fm::any_allocator_reference(env.la[1 - leaf]);
+                    (void)tmp;
+                    return a;
+                }
+                return Alloc(env.la[leaf]);
+            }
             else
                 return Alloc(env.la[leaf]);
         };
@@ -173,6 +202,7 @@ namespace cs
         }
         // (a memory_resource sees bytes only: everything up to max_node_size() arrives as a node there)
         const std::size_t node_limit = Flavour == 5 ? 0 : K::template node_size<T>();
+        const int         leaves     = Flavour == 6 ? 4 : 2;
         std::size_t       log_pos    = 0;
 
         auto check = [&](const char* what, int step)
@@ -395,7 +425,7 @@ namespace cs
                     env.log.begin_op(0);
                     Alloc al = s[a].c->get_allocator();
                     auto  p  = al.allocate(1);
-                    int   at = env.log.calls.back().leaf;
+                    int   at = env.log.calls.back().leaf % 2; // (flavour 6: leaves k and k+2 belong to allocator object k)
                     al.deallocate(p, 1);
                     if (at != s[a].leaf && at != s[b].leaf)
                         violate("C10", "wrong_allocator", "%s failed and left the target bound to a third allocator",
@@ -412,7 +442,7 @@ namespace cs
             s[(k + int(plan.num("end", 0))) & 3].c.reset();
         if (!env.log.problem.empty())
             violate("C10", "wrong_allocator", "on destruction (%s): %s", K::name, env.log.problem.c_str());
-        for (int l = 0; l < 2; ++l)
+        for (int l = 0; l < leaves; ++l)
             if (!env.leaf[l].live.empty())
                 violate("C10", "memory_not_returned", "allocator %d still has %zu allocation(s) after all %s "
                                                       "containers are gone",
